@@ -75,6 +75,21 @@ def expected_path(table, path):
 
 
 def walk(prop, tier, build="std", depth=None, stride=97):
+    """Runs the walk twice: with decoding off, and with decoding requested (the walker's 2-character payloads
+    never decode, so every completing line then returns a payload-level error - the reassembly state must
+    evolve exactly as without decoding)."""
+    a = _walk(prop, tier, build, depth, stride, 0)
+    b = _walk(prop, tier, build, depth if depth else (3 if tier != "thorough" else 4), stride * 3, 1)
+    a["summary"]["with_decoding"] = b["summary"]
+    for k in ("states", "transitions", "traces", "events", "distinct"):
+        a[k] += b[k]
+    a["violations"] += b["violations"]
+    for k, v in b["devs"].items():
+        a["devs"][k] = a["devs"].get(k, 0) + v
+    return a
+
+
+def _walk(prop, tier, build, depth, stride, dec):
     t0 = time.time()
     table, gen, dist = export_table()
     D = depth or (4 if tier == "thorough" else 3)
@@ -88,7 +103,7 @@ def walk(prop, tier, build="std", depth=None, stride=97):
         for p in paths:
             f.write("N 0\n")
             for pos, sym in enumerate(p):
-                f.write("L 0 0 %s\n" % hexs(concrete(sym, pos)[0]))
+                f.write("L 0 %d %s\n" % (dec, hexs(concrete(sym, pos)[0])))
     rc, out = run([rec, scen, trace], timeout=3600)
     if rc != 0:
         raise ToolError("recorder failed on the table walk (%s): %s" % (rc, out[-500:]))
@@ -108,6 +123,8 @@ def walk(prop, tier, build="std", depth=None, stride=97):
                 nlines += 1
                 e = json.loads(raw)
                 cls, r, data, unspec, line = exp[pos]
+                if dec and r == "complete":
+                    r, data = "err_nmea", None       # the payload cannot decode: a payload-level error
                 classes[cls] = classes.get(cls, 0) + 1
                 why = None
                 tags = None
@@ -138,10 +155,10 @@ def walk(prop, tier, build="std", depth=None, stride=97):
                     removable_before = [i for i in range(pos) if exp[i][0] in REMOVABLE and not exp[i][3]]
                     if removable_before and tags != ["C01"]:
                         reduced = [p[i] for i in range(pos + 1) if i not in removable_before]
-                        if _single_path_ok(rec, table, reduced, wdir):
+                        if _single_path_ok(rec, table, reduced, wdir, dec):
                             tags = ["C17"]
                             why = "a rejected / unfragmented line left a trace: " + why
-                    ops = ["N 0"] + ["L 0 0 %s" % hexs(exp[i][4]) for i in range(pos + 1)]
+                    ops = ["N 0"] + ["L 0 %d %s" % (dec, hexs(exp[i][4])) for i in range(pos + 1)]
                     viols.append(dict(prop=tags[0], all=tags, what=why, build=build, family="tablewalk",
                                       ops=ops, event=e))
                     dead = True
@@ -153,11 +170,11 @@ def walk(prop, tier, build="std", depth=None, stride=97):
         sc.unit()
         sc.new(0)
         for pos, sym in enumerate(p):
-            sc.line(concrete(sym, pos)[0], 0, 0)
+            sc.line(concrete(sym, pos)[0], 0, dec)
     fr = E.run_family("tablewalk-sample", sc, build, jobs=8, known=T.open_deviations())
     viols += fr.viol
     shutil.rmtree(wdir, ignore_errors=True)
-    summary = dict(name="tablewalk", build=build, depth=D, alphabet=len(ALPHABET), paths=len(paths),
+    summary = dict(name="tablewalk", build=build, depth=D, decode=dec, alphabet=len(ALPHABET), paths=len(paths),
                    lines_judged_against_table=nlines, table_edges=len(table), table_states=dist,
                    table_transitions=gen, classes=classes, tlc_validated_sample_paths=len(sample_units),
                    tlc_validated_sample_events=fr.events, sample_violations=fr.nviol,
@@ -168,18 +185,20 @@ def walk(prop, tier, build="std", depth=None, stride=97):
                 violations=viols, devs=fr.devs)
 
 
-def _single_path_ok(rec, table, path, wdir):
+def _single_path_ok(rec, table, path, wdir, dec=0):
     exp = expected_path(table, path)
     scen = os.path.join(wdir, "one.scen")
     trace = os.path.join(wdir, "one.ndjson")
     with open(scen, "w") as f:
         f.write("N 0\n")
         for pos, sym in enumerate(path):
-            f.write("L 0 0 %s\n" % hexs(exp[pos][4]))
+            f.write("L 0 %d %s\n" % (dec, hexs(exp[pos][4])))
     run([rec, scen, trace], timeout=60)
     evs = [json.loads(l) for l in open(trace, "rb").read().split(b"\n") if l][1:]
     if len(evs) != len(path):
         return False
     e = evs[-1]
     cls, r, data, unspec, line = exp[-1]
+    if dec and r == "complete":
+        r, data = "err_nmea", None
     return e["r"] == r and (data is None or bytes(e["s"]["data"]) == data)
